@@ -325,18 +325,34 @@ def run(ctx):
     dels = [n for n in walk_no_nested(clean.node) if isinstance(n, ast.Delete)]
     pm = U.parents(clean.node)
     okd = False
-    for i in walk_no_nested(clean.node):
-        if isinstance(i, ast.If) and not i.orelse:
-            body_dels = [t for b in i.body if isinstance(b, ast.Delete) for t in b.targets]
-            for tpat in ('not self._host_pool_waiters[L_k] and L_p.empty()', 'L_p.empty() and not self._host_pool_waiters[L_k]',
-                         'self._host_pool_waiters[L_k] == 0 and L_p.empty()'):
-                b_ = {}
-                if U.like(i.test, tpat, b_) and len(body_dels) == 2 and any(U.like(t, 'self._host_pools[L_k]', b_) for t in body_dels) \
-                        and any(U.like(t, 'self._host_pool_waiters[L_k]', b_) for t in body_dels):
-                    # L_k / L_p are the loop's key and pool
-                    for lp_ in walk_no_nested(clean.node):
-                        if isinstance(lp_, ast.For) and U.like(lp_.target, '(L_k, L_p)', dict(b_)) and 'self._host_pools.items()' in norm_text(lp_.iter):
-                            okd = True
+    # the guard of each `del` is the conjunction of its enclosing tests inside the loop over the host pools (any nesting / operand
+    # order / spelling of "no waiters"), compared by truth table with `not waiters[k] and pool.empty()`
+    for lp_ in walk_no_nested(clean.node):
+        b_ = {}
+        if not (isinstance(lp_, ast.For) and U.like(lp_.target, '(L_k, L_p)', b_) and 'self._host_pools.items()' in norm_text(lp_.iter)):
+            continue
+        k_, p_ = b_['L_k'], b_['L_p']
+        inloop = [d for d in dels if any(a is lp_ for a in U.ancestors(d, pm))]
+        tg = [t for d in inloop for t in d.targets]
+        guards = [U.guard_of(d, pm, stop=lp_) for d in inloop]
+        ref = 'not self._host_pool_waiters[%s] and %s.empty()' % (k_, p_)
+        from ..dtable import same_bool
+
+        def norm_guard(g):
+            # `waiters[k] == 0` is the same atom as `not waiters[k]` for a counter
+            class Z(ast.NodeTransformer):
+                def visit_Compare(self, n):
+                    self.generic_visit(n)
+                    if len(n.ops) == 1 and isinstance(n.ops[0], (ast.Eq, ast.NotEq)):
+                        a_, c_ = n.left, n.comparators[0]
+                        if isinstance(a_, ast.Constant):
+                            a_, c_ = c_, a_
+                        if isinstance(c_, ast.Constant) and c_.value == 0 and not isinstance(c_.value, bool):
+                            return a_ if isinstance(n.ops[0], ast.NotEq) else ast.UnaryOp(op=ast.Not(), operand=a_)
+                    return n
+            return ast.fix_missing_locations(Z().visit(g))
+        okd = len(inloop) >= 1 and len(tg) == 2 and all(g is not None and same_bool(norm_guard(g), ref) for g in guards) \
+            and any(norm_text(t) == 'self._host_pools[%s]' % k_ for t in tg) and any(norm_text(t) == 'self._host_pool_waiters[%s]' % k_ for t in tg)
     ck.expect(okd and len(dels) == 2, 'C12-D6', clean.qual, 'del both maps iff no waiters and pool.empty()',
               'host bookkeeping is not dropped exactly when the host has no waiters and no connections', clean.loc())
     emp = repo.func(hp.qual + '.empty')
